@@ -73,6 +73,10 @@ type Config struct {
 	Epoch      int64
 	KeepTrace  bool
 	MaxTicks   int64
+	// Preempt lists, in ascending order, the ordinal numbers of the executed statements (of the densely
+	// instrumented packages) before which the running goroutine is pre-empted: PCT-style change points
+	// inside callee code, at the cost of a counter per statement.
+	Preempt []int
 }
 
 type Result struct {
@@ -91,6 +95,8 @@ type Result struct {
 	KindCount  map[string]int
 	Busy       int // goroutines other than the root that received at least one item from a channel
 	Goroutines int
+	Stmts      int // statements executed in the densely instrumented packages
+	Preempted  int // pre-emptions that fired at such statements
 }
 
 type Sched struct {
@@ -114,6 +120,10 @@ type Sched struct {
 	anon      int
 	ticks     int64
 	tickHit   bool
+	pcount    int
+	pidx      int
+	pfired    int
+	avoid     *G
 	tickPause bool
 	kinds     [16]struct {
 		k string
@@ -190,6 +200,23 @@ func (s *Sched) park(g *G, site, kind string) {
 
 //go:norace
 func (s *Sched) Yield(site, kind string) {
+	if len(kind) == 5 && kind[0] == 'p' { // "pstmt": counted pre-emption point
+		s.pcount++
+		if s.pidx >= len(s.cfg.Preempt) || s.pcount < s.cfg.Preempt[s.pidx] {
+			return
+		}
+		g := s.self()
+		if g.locked > 0 {
+			return // never park inside a critical section: the point moves to the next statement outside
+		}
+		for s.pidx < len(s.cfg.Preempt) && s.cfg.Preempt[s.pidx] <= s.pcount {
+			s.pidx++
+		}
+		s.pfired++
+		s.avoid = g
+		s.park(g, site, kind)
+		return
+	}
 	g := s.self()
 	if g.locked > 0 || !s.siteEnabled(site, kind) {
 		return
@@ -387,6 +414,23 @@ func (s *Sched) loop(done chan struct{}) (deadlock, budget bool, blocked []strin
 				cand[j], cand[j-1] = cand[j-1], cand[j]
 			}
 		}
+		// after a counted pre-emption somebody else runs, if anybody else can
+		if s.avoid != nil {
+			if n > 1 {
+				k := 0
+				for i := 0; i < n; i++ {
+					if cand[i] != s.avoid {
+						cand[k] = cand[i]
+						k++
+					}
+				}
+				n = k
+			}
+			if s.last == s.avoid {
+				s.last = nil
+			}
+			s.avoid = nil
+		}
 		var pick *G
 		switch s.cfg.Strategy {
 		case RunToBlock:
@@ -467,6 +511,7 @@ func Run(t *testing.T, cfg Config, body func()) (res Result) {
 			}
 		}
 		res.Goroutines = s.ng
+		res.Stmts, res.Preempted = s.pcount, s.pfired
 		res.KindCount = map[string]int{}
 		for i := 0; i < s.nkinds; i++ {
 			res.KindCount[s.kinds[i].k] = s.kinds[i].n
